@@ -444,6 +444,8 @@ class Ctx:
         if len(self.violations) < 5:
             self.violations.append({"what": what, "signature": signature, "replay": replay})
         self._nviol += 1
+        if self._nviol <= 25:
+            log(f"  violation #{self._nviol}: {what} {json.dumps(jsonable(signature))[:300]}")
 
     # -- finish ---------------------------------------------------------------
     def write_replay(self, obj):
@@ -527,6 +529,11 @@ def _sig_match(pattern: dict, sig: dict) -> bool:
         elif sig[k] != v:
             return False
     return True
+
+
+def exc_trace(limit=6) -> str:
+    """short traceback of the exception being handled (for replays)"""
+    return traceback.format_exc(limit=-limit)[-1500:]
 
 
 def exc_kind(e: BaseException) -> str:
